@@ -19,6 +19,7 @@ const (
 	volumeDescriptorHeaderSize           = 7
 	volumeDescriptorBodySize             = sectorSize - volumeDescriptorHeaderSize
 	pathTableItemsLimit                  = 0x10000
+	maxDirEntrySize            sizeBytes = 0xFF // length of directory record is stored in one byte
 
 	volumeTypeBoot          byte = 0
 	volumeTypePrimary       byte = 1
